@@ -19,6 +19,8 @@ def enum_names(thorough):
 
 ILL_FORMED = ["one", "", " ", "A B", "A-B", "É", "One", "a", "A.B", "A\n", " A", "A "]
 
+PAIR_PAYLOADS = [("9007199254740993", "9007199254740992"), ("18446744073709551615", "18446744073709551614"), ("[1,\"x\"]", "[1.0,\"x\"]"), ("{\"a\":-9007199254740993}", "{\"a\":-9007199254740992}"), ("1", "1.0"), ("0", "-0.0")]
+
 PAYLOADS = [None, True, 0, -1.5, -2**63, 2**64 - 1, "NaN", "", "s", [], [1, [2]], {}, {"type": "x"}, {"a": {"b": [None]}}, {"zz": 1}, [None, {"k": "Infinity"}], 1e300,
             # doubles that need correctly rounded parsing (16-17 significant digits, extreme exponents)
             123456789.12345679, 0.9856906946328695, [914.0641164648499, 9.335744933994957e-17, 5e-324, 1.7976931348623157e308, -122.41941550000001], {"d": 906.7979265841685},
@@ -295,6 +297,32 @@ def holders(a, rep, tb, tref, leaf_cases):
                     else:
                         rep.outcome("holder:%s:preserved" % cls)
             rep.sample("holder:" + label, {"type": label, "config": cname, "documents": docs[:1] + [c[0] for c in cases if c[1] == "unlisted"][:2]})
+            # two unlisted variants of one name in one list / set whose payloads differ only in how a
+            # number is written (beyond 2^53, integer vs fraction): both survive, each as itself
+            frame = _embed(shape.ir, leaf, "@@", None) if leaf == "Un" and not cfg["exhaustive"] else None
+            if frame is not None and "[@@]" in frame:
+                pdocs = []
+                for pa, pb in PAIR_PAYLOADS:
+                    two = "%s,%s" % tuple("{\"type\":\"zz\",\"zz\":%s}" % x for x in (pa, pb))
+                    pdocs.append(({"object": "{\"f\":%s}", "union": "{\"type\":\"v\",\"v\":%s}", "alias": "%s"}[kind] % frame.replace("[@@]", "[%s]" % two), pa, pb))
+                rep.states += len(pdocs)
+                presp = tb.probe(ci).ask({"ty": "%s:%s" % (cname, name), "op": "de", "docs": [d[0] for d in pdocs]})
+                for (text, pa, pb), res in zip(pdocs, presp.get("results") or []):
+                    for side in ("c", "s", "a"):
+                        r = res.get(side)
+                        if r is None:
+                            continue
+                        rep.evaluations += 1
+                        rep.transitions += 1
+                        case = {"type": name, "config": cname, "doc": text, "side": side, "part": "holder"}
+                        out = r.get("reser") or ""
+                        digits = [x for x in (pa, pb) if x.isdigit()]
+                        if not r.get("ok"):
+                            rep.violation("C10|holder|pair-rejected|%s|%s" % (side, label), "%s [%s]: %s is rejected (%s): %s" % (label, cname, text, side, r.get("err")), case)
+                        elif out.count("\"zz\"") != 4 or any(d not in out for d in digits):
+                            rep.violation("C10|holder|pair-not-preserved|%s|%s" % (side, label), "%s [%s]: two unlisted variants %s / %s in one collection come back as %s (%s)" % (label, cname, pa, pb, out, side), case)
+                        else:
+                            rep.outcome("holder:pair-of-unlisted:both-preserved")
 
 
 def _wide(text):
